@@ -161,6 +161,18 @@ pub fn eval(c: &Case, obs: &mut Obs) -> Result<(), String> {
                     return Err(format!("memory_areas().skip({k}): expected {want:?}, got {got:?}"));
                 }
             }
+            for k in 0..=count + 1 {
+                // advance by k calls of next(), then ask the consuming adaptors
+                let mut it = tag.memory_areas();
+                for _ in 0..k {
+                    it.next();
+                }
+                let left = count.saturating_sub(k);
+                let want_last = (left > 0).then(|| want_at(count - 1));
+                if it.clone().last().map(off) != want_last || it.clone().count() != left || it.len() != left {
+                    return Err(format!("after {k} next() calls on {count} entries: last() = {:?} (expected {want_last:?}), count() = {}, len() = {} (expected {left})", it.clone().last().map(off), it.clone().count(), it.len()));
+                }
+            }
             for step in 1..=3usize {
                 let got: Vec<usize> = tag.memory_areas().step_by(step).map(off).collect();
                 let want: Vec<usize> = (0..count).step_by(step).map(want_at).collect();
@@ -194,7 +206,8 @@ fn enumerate(ctx: &Ctx) -> Box<dyn Iterator<Item = Case>> {
     for d in 0..=dmax {
         for version in [0u32, 1, 2] {
             for count in 0..=4usize {
-                let slacks = [0usize, 1, 7, 8, (d as usize).saturating_sub(8), d as usize / 2];
+                let du = d as usize;
+                let slacks = [0usize, 1, 7, 8, du.saturating_sub(8), du / 2, du.saturating_sub(4), du.saturating_sub(1), du.saturating_sub(7)];
                 for (si, s) in slacks.iter().enumerate() {
                     if si > 0 && *s == 0 {
                         continue;
@@ -227,7 +240,7 @@ fn strategy(_: &Ctx) -> BoxedStrategy<Case> {
 pub fn subs() -> Vec<Box<dyn Sub>> {
     vec![Box::new(PropSub::<Case> {
         name: "efi-iter",
-        rule: "EFI memory-map tags with marker descriptor bytes, stand-alone at a PROT_NONE page or inside a boot information. Enumerated: descriptor size 0..=128 (thorough 160) x version {0,1,2} x count 0..=4 x length slack {0,1,7,8,d-8,d/2}; generated: strides up to 160 / random, up to 11 entries, random versions. Valid (version 1, d>=40, d%8==0, L%d==0): exactly L/d items, item i at map offset i*d with the five fields decoded by the model, len() == items still to come after every next(), clone mid-way yields the same rest. Otherwise: a controlled panic before the iteration completes and no descriptor that is misaligned or overlaps the tag end (L==0: panic or empty). Non-trivial = invalid combination or >=2 entries; distinct by (d, version, L, embedding)",
+        rule: "EFI memory-map tags with marker descriptor bytes, stand-alone at a PROT_NONE page or inside a boot information. Enumerated: descriptor size 0..=128 (thorough 160) x version {0,1,2} x count 0..=4 x length slack {0,1,7,8,d-8,d/2,d-4,d-1,d-7}; generated: strides up to 160 / random, up to 11 entries, random versions. Valid (version 1, d>=40, d%8==0, L%d==0): exactly L/d items, item i at map offset i*d with the five fields decoded by the model, len() == items still to come after every next(), clone mid-way yields the same rest. Otherwise: a controlled panic before the iteration completes and no descriptor that is misaligned or overlaps the tag end (L==0: panic or empty). Non-trivial = invalid combination or >=2 entries; distinct by (d, version, L, embedding)",
         profiles: Profiles::Both,
         quick: 3000,
         thorough: 100000,
